@@ -175,6 +175,13 @@ func gen(g *zv.Gen) {
 	}
 
 	genDSA(g)
+	genSign(g)
+	// key types outside the type switch of CheckSignatureFromKey: rejected under every algorithm, whatever the signature
+	for _, ok := range []string{"stdrsa", "ecdsaval", "nil"} {
+		for a := 0; a <= 17; a++ {
+			emit(g, "other "+ok+" - - -", a, r.Bytes(1+r.Intn(40)), r.Bytes(r.Intn(80)))
+		}
+	}
 
 	for _, s := range signers {
 		rounds := g.N(3, 30)
